@@ -26,6 +26,13 @@ def run(rep: Report, repo: Repo):
     rep.assumptions = ['NOT DECIDED: the full allocator clause (no overlap / coalescing / tiling / true high-water mark under every alloc-free history) - '
                        'only the two path invariants above are decided; a bug that keeps them (e.g. wrong first-fit choice, missed coalescing) is not detected',
                        'capacities positive multiples of 4 as documented']
+    smod = map_rules(rep, repo)
+    heap_effects(rep, smod)
+
+
+def map_rules(rep, repo):
+    """Pins / alloc / alias / size rules of the memory map (also included by C01, C02, C03, C05, C06 whose results
+    depend on live signals not being overwritten)."""
     smod, init = simops.simops_init(repo)
     P = simops.Passes(init)
     body = body_no_doc(init)
@@ -148,12 +155,12 @@ def run(rep: Report, repo: Repo):
     sl = next((s for s in body if isinstance(s, ast.If) and cz(s.test) == 'strip_forks'), None)
     if sl is not None:
         t = cz(sl)
-        st_ok = st_ok and "forfincircuit.forks.values():prev_line=f.ins[0]whileprev_line.driver.kind=='__fork__':prev_line=prev_line.driver.ins[0]stem_idx=prev_line.indexforolinf.outs:ifolisnotNone:stems[ol]=stem_idx" in t
+        st_ok = st_ok and "forfincircuit.forks.values():iffininterface_dict:continueprev_line=f.ins[0]whileprev_line.driver.kind=='__fork__'andprev_line.drivernotininterface_dict:prev_line=prev_line.driver.ins[0]stem_idx=prev_line.indexforolinf.outs:ifolisnotNone:stems[ol]=stem_idx" in t
     else:
         st_ok = False
     rep.ob('C08.alias', 'stems maps every fork output to the line before the first fork of its chain', st_ok)
     if not st_ok:
-        rep.violate('C08.alias', smod, init, sl or 'stems', 'stems must default to -1 and, when forks are stripped, map each fork output to the index of the line driving the outermost fork of its chain', node=sl or init)
+        rep.violate('C08.alias', smod, init, sl or 'stems', 'stems must default to -1 and, when forks are stripped, map each output of a non-interface fork to the index of the line driving the outermost non-interface fork of its chain (port forks are evaluated as PI/PPI and keep their own memory)', node=sl or init)
 
     # ---- 5. size
     rep.rule('C08.size', 'c_len = h.max_size taken after the last alloc; Heap.alloc raises max_size on the path that grows current_size')
@@ -164,7 +171,7 @@ def run(rep: Report, repo: Repo):
     if not ok:
         rep.violate('C08.size', smod, init, cl[0] if cl else 'self.c_len', 'c_len must be h.max_size read after the last allocation (signal memory is sized by it)', node=init)
     rep.floor('alloc sites in SimOps.__init__', len(allocs), 5)
-    heap_effects(rep, smod)
+    return smod
 
 
 # --------------------------------------------------------------------------- allocator: path-wise effect analysis
